@@ -18,3 +18,10 @@ add("C14.roundtrip","VH_c14_roundtrip",TBL,c14,{"segs":2},{"segs":3},expect_reac
 add("C14.pairs","VH_c14_pairs",TBL,c14,{"segs":2},{"segs":3},expect_reach=["end"],bounds="AS_PATH of 1..segs segments (any of the 4 types, 1..3 symbolic 16-bit members) x AS4_PATH of 1..segs segments (any type, 1..3 symbolic members)")
 add("C14.aggregator","VH_c14_aggregator",TBL,c14,expect_reach=["end"],bounds="every aggregator AS (32 bit) and address 10.0.0.x")
 add("C14.boundary255","VH_c14_boundary255",TBL,c14,{"unwind":400},{"unwind":400},expect_reach=["end"],bounds="AS_PATH SEQ(n1) SEQ(n2) + AS4_PATH SEQ(n2), n1 in 99..101, n2 in 154..156 (totals 253..257), end members symbolic")
+c10=tc+["table/c10.go","table/c14.go"]
+C10B="route with symbolic MED/LOCAL_PREF/ORIGIN, 0..2 symbolic communities, AS_PATH of 1..2 members, symbolic source AS/local AS"
+add("C10.flow","VH_c10_flow",TBL,c10,expect_reach=["end"],bounds="2 policies x 2 statements (MED-equality condition, MED +d action with symbolic operands, route action in {none,accept,reject}), default in {accept,reject}, both directions; "+C10B)
+add("C10.conditions","VH_c10_conditions",TBL,c10,{"pairs":0},{"pairs":1},expect_reach=["end"],bounds="one (quick) / two (thorough) conditions out of 7 kinds with symbolic operands; "+C10B)
+add("C10.actions","VH_c10_actions",TBL,c10,{"pairs":1},{"pairs":1},expect_reach=["end"],bounds="two modifications in sequence out of 6 kinds with symbolic operands; "+C10B)
+add("C10.siblings","VH_c10_siblings",TBL,c10,expect_reach=["end"],bounds="stored route with communities / large / extended community slices of spare capacity 0..2, two per-peer copies each adding one symbolic member")
+add("C10.aspath","VH_c10_aspath",TBL,c10,expect_reach=["end"],bounds="as-path sets of 2 members from 7 patterns (4 simple, 3 regular expressions), AS_SEQUENCE of 1..2 members from a pool of 4 ASNs, any/all/invert; Go's regexp engine runs natively on the concrete texts")
